@@ -25,8 +25,7 @@ def _worker(job):
     logging.disable(logging.CRITICAL)
     import signal
 
-    class _InstanceTimeout(BaseException):  # not an Exception: must not be mistaken for an outcome of the code under contract
-        pass
+    from pyvc.ctx import InstanceTimeout as _InstanceTimeout
 
     def _alarm(signum, frame):
         raise _InstanceTimeout()
